@@ -278,6 +278,12 @@ def gen_module(rng, params):
     code_blocks = [b for b in blocks if b["kind"] == "code"]
     if rng.random() < 0.5:
         desc["entry_point"] = rng.choice(code_blocks)["id"]
+    if fmt == "elf" and rng.random() < params.get("dt_p", 0.3):
+        # ELF DT_INIT / DT_FINI (elfDynamicInit / elfDynamicFini aux data)
+        if rng.random() < 0.7:
+            desc["dt_init"] = rng.choice(code_blocks)["id"]
+        if rng.random() < 0.7:
+            desc["dt_fini"] = rng.choice(code_blocks)["id"]
     return desc
 
 
@@ -648,6 +654,12 @@ def ops_allowed(model, sd):
             if sp.func and sum(1 for s2 in model.span_list[sp.sect] if s2.func == sp.func and s2.size) > 1:
                 return False
     for op in sd["ops"]:
+        # a zero-sized block kept by an earlier deletion still belongs to its
+        # function: whether its labels are 'in' the function is a reading
+        # the listing model does not have (DESIGN 9a)
+        if op["k"] == "delfn" and any(s2.func == op["func"] and s2.size == 0 for lst in model.span_list.values() for s2 in lst):
+            return False
+    for op in sd["ops"]:
         lines = (op.get("patch") or {}).get("lines")
         if lines is not None and not any("label" not in l and not ("raw" in l and (l["raw"].startswith(".cfi") or l["raw"].startswith(".align"))) for l in lines):
             return False  # a patch must assemble to at least one byte
@@ -938,7 +950,8 @@ def _gen_session(rng, model, params, index):
             if proxy and sp.func and nfunc > 1:
                 # deleting part of a function with retarget_to_proxy leaves
                 # an orphaned body: use delete_function for the whole of it
-                if rng.random() < 0.6 and not any(o["k"] == "delfn" and o["func"] == sp.func for o in ops):
+                zs = any(s2.func == sp.func and s2.size == 0 for lst in model.span_list.values() for s2 in lst)
+                if not zs and rng.random() < 0.6 and not any(o["k"] == "delfn" and o["func"] == sp.func for o in ops):
                     for s2 in model.span_list[sp.sect]:
                         if s2.func == sp.func:
                             seen.add(s2.key)
@@ -1153,8 +1166,13 @@ def _avoid_ambiguous(model, ops):
         sp = model.spans[key]
         lstlist = model.span_list[sp.sect]
         nxt = lstlist[sp.order + 1] if sp.order + 1 < len(lstlist) else None
-        nxt_proxy = nxt is not None and any(
-            ops[oi]["k"] == "delblock" and ops[oi].get("proxy") and loc.get(oi, (None,))[0] == nxt.key for oi in loc
+        # (blocks deleted as a whole in between hand their labels on)
+        gone = {k2 for oi2, (k2, o2, l2) in loc.items() if ops[oi2]["k"] in ("delblock", "del") and not ops[oi2].get("proxy") and o2 == 0 and l2 == model.spans[k2].size}
+        while nxt is not None and nxt.key in gone:
+            nxt = lstlist[nxt.order + 1] if nxt.order + 1 < len(lstlist) else None
+        nxt_proxy = nxt is not None and (
+            any(ops[oi]["k"] == "delblock" and ops[oi].get("proxy") and loc.get(oi, (None,))[0] == nxt.key for oi in loc)
+            or (nxt.func is not None and any(o["k"] == "delfn" and o["func"] == nxt.func for o in ops))
         )
         for oi in lst:
             p = ops[oi].get("patch")
